@@ -12,7 +12,8 @@ REQUIRED_THEOREMS = [
     'C18_format_chains_overwrite_counterexample', 'hierNames_wellformed', 'filterNames_wellformed',
     'C18_initial_structure', 'C18_initial_entry', 'C18_initial_structure_legacy_partial',
     'C18_initial_structure_counterexample', 'C18_initial_structure_filter', 'C18_table_pairs',
-    'C18_readback', 'C18_roundtrip', 'C18_roundtrip_example']
+    'C18_readback', 'C18_roundtrip', 'C18_roundtrip_example', 'C18_readback_history_independent',
+    'C18_readback_cache_counterexample', 'C18_initial_reproducible', 'C18_seed_zero_counterexample']
 RULE = ('random posteriors: individual (LogPosterior), hierarchical (1-3 population sub-models out of '
         'Gaussian / log-normal centred and non-centred, truncated Gaussian, pooled, heterogeneous, covariate-'
         'wrapped Gaussian and pooled, reduced), 1-4 individuals, 1-2 dims per sub-model, and population-filter '
@@ -140,6 +141,19 @@ def sub_flags(chi, pm):
              bool(x.n_hierarchical_dim() == 0)] for x in models]
 
 
+def pick_seed(rng, hi=10000):
+    """seeds include the boundary values: 0 (falsy), 1, and the largest value numpy's legacy seeding accepts
+    minus one (the code adds 1 for its second generator)"""
+    r = rng.random()
+    if r < 0.2:
+        return 0
+    if r < 0.27:
+        return 1
+    if r < 0.3:
+        return 2 ** 32 - 2
+    return int(rng.integers(2, hi))
+
+
 def distinct_chains(rng, n_chains, n_draws, n_par):
     base = rng.permutation(n_chains * n_draws * n_par).astype(float).reshape(n_chains, n_draws, n_par)
     return 0.25 + base / 8.0          # pairwise distinct, exactly representable
@@ -204,7 +218,7 @@ def format_case(ctx, chi, lp, label, inp, rng):
         ids_full = [None] * len(names)
         uniq = []
     try:
-        ctrl = chi.SamplingController(lp, seed=int(rng.integers(0, 1000)))
+        ctrl = chi.SamplingController(lp, seed=pick_seed(rng, 1000))
     except Exception as e:  # noqa
         return None, core.errkind(e)
     n_chains, n_draws = int(rng.integers(1, 4)), int(rng.integers(1, 6))
@@ -232,6 +246,18 @@ def format_case(ctx, chi, lp, label, inp, rng):
         ctx.spec('C18.format_chains/individual_coordinate', coords_ok, inp)
     else:
         ctx.agree('C18.format_chains/' + label, 'ok', mo[0], inp)
+    # the same controller object used again: a second, differently shaped chain array; the dataset
+    # returned first must keep describing the first array
+    held = {v: ds[v].values.copy() for v in ds.data_vars}
+    chains2 = distinct_chains(rng, int(rng.integers(1, 4)), int(rng.integers(1, 6)), len(names)) + 1000.0
+    try:
+        ds2 = ctrl._format_chains(chains2, None)
+        p2 = dataset_spec_check(ds2, chains2, names, ids_full, uniq)
+    except Exception as e:  # noqa
+        p2 = [('second call raised', repr(e)[:200])]
+    ctx.spec('C18.format_chains/second_call_on_same_controller', not p2, inp, {'problems': p2[:4]})
+    ctx.spec('C18.format_chains/first_dataset_held', all(np.array_equal(held[v], ds[v].values) for v in held)
+             and not dataset_spec_check(ds, chains, names, ids_full, uniq), inp)
     return (ds, chains, names, top, ids_full, uniq), None
 
 
@@ -239,7 +265,7 @@ def format_case(ctx, chi, lp, label, inp, rng):
 # initial parameters
 # ----------------------------------------------------------------------------------------
 def initial_case(ctx, chi, lp, pm, cov, flags, label, inp, rng, n_ids):
-    seed = int(rng.integers(0, 10000))
+    seed = pick_seed(rng)
     n = int(rng.integers(1, 4))
     n_par = lp.n_parameters()
     try:
@@ -260,8 +286,16 @@ def initial_case(ctx, chi, lp, pm, cov, flags, label, inp, rng, n_ids):
     # reproducible from the seed, whatever the global generator did in between
     np.random.seed(int(rng.integers(0, 10000)))
     np.random.normal(size=3)
+    held = x0.copy()
     x1 = np.asarray(lp.sample_initial_parameters(n_samples=n, seed=seed), float)
-    ctx.spec('C18.initial_reproducible/' + label, np.array_equal(x0, x1), inp)
+    ctx.spec('C18.initial_reproducible/' + label, np.array_equal(x0, x1), inp, {'seed': seed})
+    # a call with another seed / another number of points in between changes neither the earlier result
+    # nor what the first seed gives afterwards
+    other = np.asarray(lp.sample_initial_parameters(n_samples=n + 1, seed=seed + 1 if seed < 2 ** 32 - 2 else 5),
+                       float)
+    x2 = np.asarray(lp.sample_initial_parameters(n_samples=n, seed=seed), float)
+    ctx.spec('C18.initial_reproducible/' + label, np.array_equal(held, x0) and np.array_equal(x0, x2)
+             and other.shape == (n + 1, n_par), inp, {'seed': seed, 'after_other_call': True})
     # prior and population contributions (the likelihood of the data is not part of the statement)
     n_top = lp.n_parameters(exclude_bottom_level=True) if pm is not None else n_par
     nb = n_par - n_top
@@ -310,73 +344,115 @@ def hier_initial_structure(ctx, chi, lp, pm, cov, flags, x0, seed, n, inp, n_ids
 # read-back
 # ----------------------------------------------------------------------------------------
 def readback_case(ctx, chi, c, fmt, lls, inp, rng):
-    """feed the dataset to a PosteriorPredictiveModel and to compute_pointwise_loglikelihood of one individual"""
+    """feed the dataset to a PosteriorPredictiveModel and to compute_pointwise_loglikelihood;
+    ONE PosteriorPredictiveModel object is asked for a sequence of individuals (repetitions and the default
+    included): every call must read the columns of the individual of that call"""
     ds, chains, names, top, ids_full, uniq = fmt
     n_dim = sum(nd for _, nd in c['cfg'])
     model_names = mech_names(c, n_dim - 1) + ['Sigma']
-    r_ind = int(rng.integers(0, len(uniq)))
-    individual = uniq[r_ind]
-    # map every model parameter to its dataset variable: bottom names are identical, special dims are
-    # population-level variables (pooled: one name; heterogeneous: one name per individual)
-    pop_names = list(top)
-    pmap = {}
-    cur = 0
-    cursor = 0      # position in the population model's names
-    for kind, nd in c['cfg']:
-        for d in range(nd):
-            mn = model_names[cur + d]
-            if kind == 'P':
-                pmap[mn] = pop_names[cursor + d]
-            elif kind == 'H':
-                pmap[mn] = pop_names[cursor + r_ind * nd + d]
-        cur += nd
-        cursor += {'P': nd, 'H': nd * len(uniq), 'G': 2 * nd, 'Gnc': 2 * nd, 'LN': 2 * nd, 'LNnc': 2 * nd,
-                   'TG': 2 * nd, 'CovG': 4 * nd, 'CovP': 2 * nd}[kind]
-    # expected columns, straight from names / ids (the property's reading)
-    cols = []
-    for mn in model_names:
-        target = pmap.get(mn, mn)
-        ks = [k for k, (nm, i) in enumerate(zip(names, ids_full)) if nm == target and (i is None or i == individual)]
-        if len(ks) != 1:
-            return
-        cols.append(ks[0])
-    mo = ctx.model('C18.roundtrip', names, top, len(uniq), list(uniq), model_names,
-                   [[a, b] for a, b in pmap.items()], individual)
-    ctx.agree('C18.readback_columns', ['ok', cols], mo, inp)
+    has_het = any(kind == 'H' for kind, _ in c['cfg'])
+    r_first = int(rng.integers(0, len(uniq)))
+
+    def param_map(r_ind):
+        # bottom names are identical, special dims are population-level variables (pooled: one name;
+        # heterogeneous: one name per individual)
+        pop_names = list(top)
+        pmap = {}
+        cur = 0
+        cursor = 0      # position in the population model's names
+        for kind, nd in c['cfg']:
+            for d in range(nd):
+                mn = model_names[cur + d]
+                if kind == 'P':
+                    pmap[mn] = pop_names[cursor + d]
+                elif kind == 'H':
+                    pmap[mn] = pop_names[cursor + r_ind * nd + d]
+            cur += nd
+            cursor += {'P': nd, 'H': nd * len(uniq), 'G': 2 * nd, 'Gnc': 2 * nd, 'LN': 2 * nd, 'LNnc': 2 * nd,
+                       'TG': 2 * nd, 'CovG': 4 * nd, 'CovP': 2 * nd}[kind]
+        return pmap
+
+    def columns(pmap, individual):
+        # expected columns, straight from names / ids (the property's reading)
+        cols = []
+        for mn in model_names:
+            target = pmap.get(mn, mn)
+            ks = [k for k, (nm, i) in enumerate(zip(names, ids_full))
+                  if nm == target and (i is None or i == individual)]
+            if len(ks) != 1:
+                return None
+            cols.append(ks[0])
+        return cols
+    pmap = param_map(r_first)
+    if columns(pmap, uniq[r_first]) is None:
+        return      # a model parameter without a uniquely named dataset variable (covariate-wrapped pooled)
+    # the sequence of requests put to one object (a heterogeneous dimension needs a per-individual name map,
+    # so there the object can only serve its own individual — asked twice)
+    if has_het:
+        seq = [r_first, r_first]
+    else:
+        seq = [r_first] + [int(rng.integers(0, len(uniq))) for _ in range(int(rng.integers(1, 4)))]
+        if rng.random() < 0.3:
+            seq[int(rng.integers(0, len(seq)))] = None          # individual=None: the first ID
     n_chains, n_draws, _ = chains.shape
-    posterior = np.stack([chains[:, :, k].flatten() for k in cols], axis=1)
-    # --- posterior predictive model: exact replay of its random stream on the expected matrix
     pred = chi.PredictiveModel(make_toy(c, n_dim - 1), [chi.GaussianErrorModel()])
-    seed = int(rng.integers(0, 10000))
     times = [0.5, 1.5, 3.0]
-    n_samples = 3
+    n_samples = int(rng.integers(1, 4))
     try:
         ppm = chi.PosteriorPredictiveModel(pred, ds, param_map=pmap)
-        df = ppm.sample(times, n_samples=n_samples, individual=individual, seed=seed)
-        got = list(np.asarray(df['Value'], float))
     except Exception as e:  # noqa
-        got = core.errkind(e)
-    g = np.random.default_rng(seed)
-    want = []
-    for _ in range(n_samples):
-        par = g.choice(posterior)
-        smp = pred.sample(par, np.sort(times), n_samples, g, return_df=False)
-        want += list(smp[0, :, 0])
-    ctx.spec('C18.readback/posterior_predictive', not isinstance(got, str) and core.close(got, want, 1e-12),
-             inp, {'individual': individual, 'param_map': pmap, 'chi': got, 'expected': want, 'columns': cols})
-    # --- pointwise log-likelihood of that individual
-    ll = lls[r_ind]
-    try:
-        pw = chi.compute_pointwise_loglikelihood(ll, ds, individual=individual, param_map=pmap)
-        gotp = np.asarray(pw.values, float)
-    except Exception as e:  # noqa
-        gotp = core.errkind(e)
-    with np.errstate(all='ignore'):
-        wantp = np.array([[ll.compute_pointwise_ll(chains[ci, di, cols]) for di in range(n_draws)]
-                          for ci in range(n_chains)], float)
-    ctx.spec('C18.readback/pointwise_loglikelihood', not isinstance(gotp, str) and gotp.shape == wantp.shape
-             and core.close(gotp, wantp, 1e-12), inp,
-             {'individual': individual, 'chi': gotp if isinstance(gotp, str) else 'array', 'columns': cols})
+        ctx.spec('C18.readback/posterior_predictive', False, inp, {'constructor raised': repr(e)[:200]})
+        ppm = None
+    for pos, r_ind in enumerate(seq):
+        individual = None if r_ind is None else uniq[r_ind]
+        eff = uniq[0] if r_ind is None else individual
+        cols = columns(pmap, eff)
+        if cols is None:
+            return
+        if pos == 0 or not has_het:
+            mo = ctx.model('C18.roundtrip', names, top, len(uniq), list(uniq), model_names,
+                           [[a_, b_] for a_, b_ in pmap.items()], individual)
+            ctx.agree('C18.readback_columns', ['ok', cols], mo, inp)
+        if ppm is None:
+            continue
+        posterior = np.stack([chains[:, :, k].flatten() for k in cols], axis=1)
+        # exact replay of the object's random stream on the expected matrix
+        seed = pick_seed(rng)
+        try:
+            df = ppm.sample(times, n_samples=n_samples, individual=individual, seed=seed)
+            got = list(np.asarray(df['Value'], float))
+        except Exception as e:  # noqa
+            got = core.errkind(e)
+        g = np.random.default_rng(seed)
+        want = []
+        for _ in range(n_samples):
+            par = g.choice(posterior)
+            smp = pred.sample(par, np.sort(times), n_samples, g, return_df=False)
+            want += list(smp[0, :, 0])
+        ctx.spec('C18.readback/posterior_predictive' if pos == 0 else
+                 'C18.readback/posterior_predictive_same_object_later_call',
+                 not isinstance(got, str) and core.close(got, want, 1e-12), inp,
+                 {'call': pos, 'requests_so_far': [None if r is None else uniq[r] for r in seq[:pos + 1]],
+                  'param_map': pmap, 'chi': got, 'expected': want, 'columns': cols, 'seed': seed})
+    # --- pointwise log-likelihood: the function is called for two individuals in a row on the same dataset
+    for r_ind in ([r_first] if has_het else sorted({r_first, (r_first + 1) % len(uniq)})):
+        individual = uniq[r_ind]
+        pm_ = param_map(r_ind)
+        cols = columns(pm_, individual)
+        if cols is None:
+            continue
+        ll = lls[r_ind]
+        try:
+            pw = chi.compute_pointwise_loglikelihood(ll, ds, individual=individual, param_map=pm_)
+            gotp = np.asarray(pw.values, float)
+        except Exception as e:  # noqa
+            gotp = core.errkind(e)
+        with np.errstate(all='ignore'):
+            wantp = np.array([[ll.compute_pointwise_ll(chains[ci, di, cols]) for di in range(n_draws)]
+                              for ci in range(n_chains)], float)
+        ctx.spec('C18.readback/pointwise_loglikelihood', not isinstance(gotp, str) and gotp.shape == wantp.shape
+                 and core.close(gotp, wantp, 1e-12), inp,
+                 {'individual': individual, 'chi': gotp if isinstance(gotp, str) else 'array', 'columns': cols})
 
 
 def individual_dataset_case(ctx, chi, rng, k):
@@ -403,7 +479,7 @@ def individual_dataset_case(ctx, chi, rng, k):
     ds, chains, names = fmt[0], fmt[1], fmt[2]
     n_chains, n_draws, _ = chains.shape
     pred = chi.PredictiveModel(toy.ToyModel(1, n_mech, tseed), [chi.GaussianErrorModel()])
-    seed = int(rng.integers(0, 10000))
+    seed = pick_seed(rng)
     try:
         df = chi.PosteriorPredictiveModel(pred, ds).sample([0.5, 2.0], n_samples=2, seed=seed)
         got = list(np.asarray(df['Value'], float))
@@ -433,7 +509,7 @@ def individual_dataset_case(ctx, chi, rng, k):
 # optimisation table, initial points of the controllers
 # ----------------------------------------------------------------------------------------
 def table_case(ctx, chi, lp, label, inp, rng):
-    seed = int(rng.integers(0, 1000))
+    seed = pick_seed(rng, 1000)
     try:
         ctrl = chi.OptimisationController(lp, seed=seed)
     except Exception:  # noqa
@@ -515,7 +591,7 @@ def controller_initial_points(ctx, chi, rng, k):
                                [0.5, 1.0, 2.0])
         lp = Rec(ll, prior_for(n_mech + 1, tseed))
         desc = {'n_mech': n_mech, 'toy_seed': tseed}
-    seed = int(rng.integers(0, 1000))
+    seed = pick_seed(rng, 1000)
     n_runs = int(rng.integers(1, 4))
     inp = {'kind': 'controller_initial', 'k': k, 'seed': seed, 'n_runs': n_runs, **desc}
     ctx.case('controller_run/%s/runs%d' % ('hier' if hier else 'individual', n_runs),
@@ -593,7 +669,7 @@ def filter_case(ctx, chi, rng, k):
              nontrivial='filter/%s/sim%d/t%d' % (cfg, n_sim, n_times) if special else False, sample=inp)
     fmt, _ = format_case(ctx, chi, lp, 'filter', inp, rng)
     flags = sub_flags(chi, pm)
-    seed = int(rng.integers(0, 10000))
+    seed = pick_seed(rng)
     n = int(rng.integers(1, 3))
     try:
         x0 = np.asarray(lp.sample_initial_parameters(n_samples=n, seed=seed), float)
@@ -690,7 +766,7 @@ def run_one(ctx, chi, kind, k):
 def run(ctx):
     chi = core.import_chi()
     corpus(ctx, chi)
-    n = {'quick': (400, 40, 60, 16), 'thorough': (18000, 1100, 1800, 150)}[ctx.tier]
+    n = {'quick': (400, 40, 60, 16), 'thorough': (10200, 660, 1020, 90)}[ctx.tier]
     for kind, cnt in zip(('hier', 'individual', 'filter', 'ctrl'), n):
         for k in range(cnt):
             run_one(ctx, chi, kind, k)
